@@ -140,10 +140,20 @@ func TestC05Auth(t *testing.T) {
 				return false
 			}
 			var goods, bads []*cand
+			var goodPayload payload
 			// ---- one authorized transaction (or a revocation pair)
 			revocation := false
 			if rapid.IntRange(0, 3).Draw(rt, "with-good") != 0 {
 				p := genPayload(rt, w)
+				if rapid.IntRange(0, 3).Draw(rt, "creator") == 0 {
+					// prefer a transaction that creates an object (validator / order): forged follow-ups target it in the same block
+					for tries := 0; tries < 40; tries++ {
+						if n := p.msg.Name(); n == fsm.MessageStakeName || n == fsm.MessageCreateOrderName {
+							break
+						}
+						p = genPayload(rt, w)
+					}
+				}
 				gi := rapid.IntRange(0, len(p.rightful)-1).Draw(rt, "rightful-role")
 				s := pick(rt, "rightful-form", p.rightful[gi])
 				grind := (s.Kind == cs.KindEd || s.Kind == cs.KindSecp) && rapid.IntRange(0, 1).Draw(rt, "grind") == 0
@@ -176,6 +186,7 @@ func TestC05Auth(t *testing.T) {
 						g.class = append(g.class, "good=wire-signer-field-names-a-victim")
 					}
 					goods = append(goods, g)
+					goodPayload = p
 					// revocation pair: the output redirects the output; the old output then tries again in the same block
 					if m, is := p.msg.(*fsm.MessageEditStake); is && p.roles[gi] == "output" && bytes.Equal(m.OutputAddress, attacker.Address()) {
 						if x, ok := signedCand(rt, w, s, &fsm.MessageUnstake{Address: m.Address}); ok {
@@ -186,6 +197,10 @@ func TestC05Auth(t *testing.T) {
 						}
 					}
 				}
+			}
+			// ---- forged follow-ups on the object the authorized transaction creates in this very block
+			if !revocation && len(goods) == 1 {
+				bads = append(bads, dependentForgeries(rt, w, goods[0], goodPayload)...)
 			}
 			// ---- unauthorized / tampered candidates
 			if !revocation {
@@ -272,7 +287,17 @@ func TestC05Auth(t *testing.T) {
 			if !revocation {
 				// shuffle candidates among the neighbours
 				perm := rapid.Permutation(all).Draw(rt, "order")
-				all = perm
+				all = all[:0]
+				for _, x := range perm { // candidates that depend on the authorized transaction are placed after it
+					if !x.after {
+						all = append(all, x)
+					}
+				}
+				for _, x := range perm {
+					if x.after {
+						all = append(all, x)
+					}
+				}
 			}
 			seen := map[string]bool{}
 			for _, tx := range blockTxs {
@@ -287,7 +312,15 @@ func TestC05Auth(t *testing.T) {
 				kept = append(kept, x)
 				pos := len(blockTxs)
 				if !revocation && len(blockTxs) > 0 {
-					pos = rapid.IntRange(0, len(blockTxs)).Draw(rt, "position")
+					lo := 0
+					if x.after {
+						for i, tx := range blockTxs {
+							if bytes.Equal(tx, goods[0].bz) {
+								lo = i + 1
+							}
+						}
+					}
+					pos = rapid.IntRange(lo, len(blockTxs)).Draw(rt, "position")
 				}
 				blockTxs = append(blockTxs[:pos], append([][]byte{x.bz}, blockTxs[pos:]...)...)
 			}
